@@ -1,5 +1,5 @@
 (* Case runner and spec checker (T3) for C03. *)
-From WI Require Import Lib.Base Lib.Info Lib.Strings Model.Cert Model.CertDer.
+From WI Require Import Lib.Base Lib.Info Lib.Strings Model.Cert Model.CertDer Model.NameDer.
 Open Scope N_scope.
 
 (* ---------- decoding the harness's s-expressions ---------- *)
@@ -127,17 +127,34 @@ Definition oracles_of_arg (a : arg) : oracles :=
                          bytes_eqb (arg_bytes (arg_nth 2 x)) v && arg_bool (arg_nth 3 x)) exts;
      o_negative_serial := arg_bool (arg_nth 5 a) |}.
 
+(* the answers the library gave for the two Names of a certificate (still recorded by the harness, no longer
+   used by the model) against the model on the same octets *)
+Definition recorded_names_agree (a : arg) : bool :=
+  forallb (fun x => match name_text (arg_bytes (arg_nth 0 x)) with
+                    | Some t => bytes_eqb t (arg_bytes (arg_nth 1 x))
+                    | None => false
+                    end) (arg_list (arg_nth 0 a)).
+
 Definition run_C03 (op : bytes) (input : arg) : arg :=
   if bytes_eqb op (bs "der") then
-    match parse_certificate_der (oracles_of_arg (arg_nth 1 input)) (arg_bytes (arg_nth 0 input)) with
+    match parse_certificate_der (with_names (oracles_of_arg (arg_nth 1 input))) (arg_bytes (arg_nth 0 input)) with
     | Some f => AL [AZ 0; arg_of_fields f]
     | None => AL [AZ 1]
     end
   else if bytes_eqb op (bs "derinspect") then
-    match describe_der (oracles_of_arg (arg_nth 1 input)) (arg_bytes (arg_nth 0 input)) with
+    match describe_der (with_names (oracles_of_arg (arg_nth 1 input))) (arg_bytes (arg_nth 0 input)) with
     | Some i => AL [AZ 0; arg_of_info i]
     | None => AL [AZ 1]
     end
+  else if bytes_eqb op (bs "name") then
+    (* the octets of a Name: FromRawDN's text, and whether they are one SEQUENCE element whose content
+       crypto/x509 accepts as a name *)
+    let raw := arg_bytes (arg_nth 0 input) in
+    AL [AB (from_raw_dn_der raw);
+        AZ (match cb_read 48 raw with
+            | Some (c, []) => match name_text c with Some _ => 1 | None => 0 end
+            | _ => 0
+            end)]
   else if bytes_eqb op (bs "ku") then
     AL (map AB (key_usages (arg_N (arg_nth 0 input))))
   else if bytes_eqb op (bs "eku") then
@@ -533,6 +550,8 @@ Definition check_C03 (op : bytes) (input impl : arg) : arg :=
     | _, AL [AZ 2%Z] => AS "panic"
     | _, _ => AL []
     end
+  else if bytes_eqb op (bs "der") && negb (recorded_names_agree (arg_nth 1 input)) then
+    AS "correspondence: the library's recorded text for a Name differs from name_text on the same octets"
   else
     match impl with
     | AL [AZ 2%Z] => AS "panic"
